@@ -70,6 +70,7 @@ func TestVerifC17(t *testing.T) {
 			{"cap1-inner-accept-fails-once", 1, 3, []int{0}, nil, false, 1, 1},
 			{"cap2-inner-accept-fails-second", 2, 3, []int{0}, nil, false, 1, 2},
 			{"cap1-grow2-two-acceptors", 1, 3, nil, []uint32{2}, false, 2, 0},
+			{"cap2-shrink1-same1-grow2", 2, 4, nil, []uint32{1, 1, 2}, false, 1, 0},
 		}
 		var jobs []mc.Job
 		for i, sc := range scen {
